@@ -50,9 +50,13 @@ AnswerIsNegotiated == n > 0 => last.v = last.want
 \* ---- symmetry of the rule: two nodes that both advertise their (implemented) sets agree ----
 Agree == \A a, b \in SUBSET Universe \ {{}} :
             \A sa \in Orders(a), sb \in Orders(b) : Negotiate(sa, Adv(b)) = Negotiate(sb, Adv(a))
-\* framing: version 1 prefixes the content with its length, version 0 sends it raw
+\* Versions 0 and 1 are the implemented ones.  OFFER / ACCEPT is refused with an unsupported-version error for any other negotiated
+\* version (filterContentKeys, parseOfferResp) - by design, the version list is not user-configurable (portalwire.Versions); the
+\* framing of find-content streams has no such path: version 1 prefixes the content with its length, every other version sends it raw.
+Implemented == {0, 1}
+OfferSupported(v) == v \in Implemented
 Frame(v, c) == IF v = 1 THEN <<"len", c>> ELSE c
 Unframe(v, f) == IF v = 1 THEN (IF Len(f) = 2 /\ f[1] = "len" THEN f[2] ELSE <<"error">>) ELSE f
-FramingRoundTrips == \A v \in {0, 1} : Unframe(v, Frame(v, <<"x">>)) = <<"x">>
+FramingRoundTrips == \A v \in {0, 1, 2} : Unframe(v, Frame(v, <<"x">>)) = <<"x">>
 FramingMismatchDetected == Unframe(1, Frame(0, <<"x">>)) = <<"error">>
 ===============================================================================
